@@ -333,16 +333,17 @@ WRONG = [None, 0, 1, -1, 1.5, 2 ** 70, True, "", "x", "0", "1", [], {}, [None], 
 def mutations(doc, r=None, limit=None):
     """single-point structural mutations of a JSON document, as JSON texts"""
     out = []
+    prio = []      # never sampled away: spellings of numbers (validation and execution must agree on what a number is)
     paths = [p for p in _paths(doc) if p]
     for path in paths:
         cur = _get(doc, path)
         if isinstance(cur, str) and cur.isdigit():
             # spellings of a number a lenient parser may or may not accept
             for v in (" " + cur, cur + " ", "\t" + cur + "\n", "+" + cur, "0" + cur, cur[0] + "_" + cur[1:] if len(cur) > 1 else cur + "_", hex(int(cur)), "-" + cur, cur + ".0", cur + "e0"):
-                out.append(json.dumps(_set(doc, path, v), separators=(",", ":")))
+                prio.append(json.dumps(_set(doc, path, v), separators=(",", ":")))
         if isinstance(cur, int) and not isinstance(cur, bool):
             for v in (str(cur), " %d" % cur, -cur - 1, cur + 2 ** 32, float(cur)):
-                out.append(json.dumps(_set(doc, path, v), separators=(",", ":")))
+                prio.append(json.dumps(_set(doc, path, v), separators=(",", ":")))
         for w in WRONG:
             out.append(json.dumps(_set(doc, path, w), separators=(",", ":")))
         out.append(json.dumps(_del(doc, path), separators=(",", ":")))
@@ -382,7 +383,7 @@ def mutations(doc, r=None, limit=None):
     out.append(base.replace("{\"orbiter\"", "{\"note\":1e400,\"orbiter\"", 1)[: len(base) + 40])
     if r is not None and limit is not None and len(out) > limit:
         out = r.shuffle(out)[:limit]
-    return out
+    return prio + out
 
 
 def payload_shapes(toks):
